@@ -1564,6 +1564,9 @@ def plan_c11(tier, seed):
             if N >= 12 and N + up + 4 <= 128:
                 cand.append(Layout(N, [Field("f", T_uint(N + up + 4), [(0, N + up), (8, 4)], None, "rw")], tag=f"overlapping list [0..={N + up - 1}, 8..=11] on u{N}: the entry that starts lower reaches above bit {N - 1}"))
                 cand.append(Layout(N, [Field("f", T_uint(N + up), [(0, 4), (4, N + up - 4)], None, "rw")], tag=f"list [0..=3, 4..={N + up - 1}] on u{N}: the LAST entry reaches above bit {N - 1}"))
+            e_ = full_enum("E2", 2)
+            cand.append(Layout(N, [Field("f", FType("enum", 2, e_), [(N - 1, 2)], None, "rw"), Field("lo", T_bool(), [(0, 1)], None, "rw")], aux=[e_], tag=f"2-bit enum at bits {N - 1}..={N} of u{N}"))
+            cand.append(Layout(N, [Field("f", FType("nested", st - N, None, "Inner"), [(N, st - N)], None, "rw")], aux=[nested_decl("Inner", st - N)], tag=f"nested bitfield in the hidden storage bits of u{N}"))
             cand.append(Layout(N, [Field("f", T_uint(2), [(0, 1), (2, 1)], (2, N - 2, True), "rw")], tag=f"array of lists with gaps reaching bit {N} of u{N}"))
             cand.append(Layout(N, [Field("f", T_uint(2), [(N - 3, 2)], (2, 2, False), "rw")], tag=f"[u2;2] ending at bit {N} of u{N}"))
     for N in ([7, 14, 24, 33, 65] if tier == "quick" else [n for n in ALL_ARB if n >= 3][::6]):
@@ -1576,6 +1579,9 @@ def plan_c11(tier, seed):
         for h in hs:
             h.role = "field-above-exposed-width"
         pre = f"pub type VStorage = u{L.storage};\n" + VRES
+        for a in L.aux:
+            if isinstance(a, EnumDef):
+                pre += f"\nimpl VEnumBits for {a.name} {{ fn vbits(self) -> u128 {{ self as u128 }} }}"
         us.append(Unit(f"l{n:05d}", L.decl() + "\n" + C11_PRE, hs, {"layout": L, "sig": L.sig(), "tag": L.tag, "valid": False, "role": "field-above-exposed-width"}, pre))
         n += 1
     nvalid = len(us) - len(cand)
@@ -1827,6 +1833,12 @@ def c09_candidates(tier):
         add(W, [Field("f", T_uint(4), [(0, 3)], (2, 4, True), "rw")], "type-width-mismatch", f"[u4;2] over 3-bit elements on u{W}")
         add(W, [Field("f", T_uint(6), [(0, 2), (4, 3)], None, "rw")], "type-width-mismatch", f"u6 over a 5-bit list on u{W}")
         add(W, [Field("f", T_bool(), [(0, 1), (3, 1)], None, "rw", form="list")], "type-width-mismatch", f"bool over a two-item list on u{W}")
+    for W in (16, 32, 24, 128):
+        # lists that name a bit twice: the width is the SUM of the entries, not the number of distinct bits
+        add(W, [Field("f", T_uint(8), [(0, 8), (6, 2)], None, "rw")], "type-width-mismatch-overlapping-list", f"u8 over [0..=7, 6..=7] (10 listed bits, 8 distinct) on u{W}")
+        add(W, [Field("f", T_uint(6), [(0, 4), (2, 4)], None, "rw")], "type-width-mismatch-overlapping-list", f"u6 over [0..=3, 2..=5] (8 listed bits, 6 distinct) on u{W}")
+        add(W, [Field("f", T_uint(1), [(5, 1), (5, 1)], None, "r")], "type-width-mismatch-overlapping-list", f"read-only u1 over [5, 5] on u{W}")
+        add(W, [Field("f", T_uint(3), [(0, 2), (1, 2)], (2, 4, True), "rw")], "type-width-mismatch-overlapping-list", f"[u3; 2] over [0..=1, 1..=2] on u{W}")
     for W in (16, 64, 24):
         add(W, [Field("f", T_uint(8), [(0, 7)], None, "rw")], "type-width-mismatch", f"u8 over 7 bits on u{W}")
         add(W, [Field("f", T_uint(8), [(2, 9)], None, "rw")], "type-width-mismatch", f"u8 over 9 bits on u{W}")
@@ -1862,6 +1874,15 @@ def c09_candidates(tier):
         add(W, [Field("f", T_uint(3), [(W + 8, 3)], None, "rw")], "non-array-field-beyond-base-width", f"u3 entirely above u{W}")
         add(W, [Field("f", T_uint(2), [(0, 1), (W, 1)], None, "rw")], "list-item-beyond-base-width", f"list with an item at bit {W} of u{W}")
         add(W, [Field("f", T_int(8), [(W - 7, 8)], None, "rw")], "non-array-field-beyond-base-width", f"i8 one bit beyond u{W}")
+    # the same with enum / Option<enum> / nested-bitfield / custom field types
+    for W in [8, 32, 128] + arbs[:6]:
+        e = full_enum("E2", 2)
+        o = sparse_enum("E3N", 3, [0, 1, 5, 7], None)
+        add(W, [Field("f", FType("enum", 2, e), [(W - 1, 2)], None, "rw"), Field("lo", T_bool(), [(0, 1)], None, "rw")], "custom-typed-field-beyond-base-width", f"2-bit enum straddling the top of u{W}", aux=[e])
+        add(W, [Field("f", FType("optenum", 3, o), [(W - 2, 3)], None, "rw")], "custom-typed-field-beyond-base-width", f"Option<3-bit enum> one bit beyond u{W}", aux=[o])
+        if W >= 8:
+            add(W, [Field("f", FType("nested", 8, None, "Inner"), [(W - 4, 8)], None, "rw")], "custom-typed-field-beyond-base-width", f"8-bit nested bitfield straddling the top of u{W}", aux=[nested_decl("Inner", 8)])
+        add(W, [Field("f", FType("custom", 3, None, "Cust"), [(W, 3)], None, "w")], "custom-typed-field-beyond-base-width", f"write-only 3-bit custom type entirely above u{W}", aux=[custom_decl("Cust", 3)])
     if True:
         add(32, [Field("f", T_bool(), [(40, 1)], None, "rw")], "non-array-field-beyond-base-width", "bool at bit 40 of u32 (property text example)")
         add(32, [Field("f", T_uint(5), [(30, 5)], None, "rw")], "non-array-field-beyond-base-width", "u5 at 30..=34 of u32")
@@ -2014,7 +2035,7 @@ def c09_accept_corpus(tier, seed):
         if W >= 8:
             Ls.append(Layout(W, [Field("f", T_uint(4), [(0, 4)], (2, 4, True), "rw")], tag=f"stride == width on u{W}"))
             Ls.append(Layout(W, [Field("f", T_uint(6), [(1, 6)], None, "r"), Field("g", T_int(8), [(W - 8, 8)], None, "w"), Field("n", T_bool(), [(0, 1)], None, "")], tag=f"access r / w / none on u{W}"))
-    Ls += list_syntax_layouts() + surface_layouts()
+    Ls += list_syntax_layouts() + surface_layouts() + c12_selfoverlap_layouts()
     k = 1 if tier != "quick" else 4
     for fn in (c01_layouts, c02_layouts, c03_layouts, c04_layouts, c05_layouts, c06_layouts, c08_layouts, c12_layouts, c13_layouts, c16_layouts):
         ls = fn("quick", 0)
@@ -2158,6 +2179,11 @@ def c14_candidates(tier, seed):
     for W in (32, 64, 24):
         add(W, [Field("a", T_uint(8), [(0, 4), (2, 4)], (W // 8, 8, True), "rw")], "self-overlapping-list", f"array of self-overlapping lists [0..=3, 2..=5] with disjoint elements, default, on u{W}", default=D(W))
         add(W, [Field("a", T_uint(2), [(1, 1), (1, 1)], (3, 2, True), "rw")], "self-overlapping-list", f"array of lists [1, 1] with disjoint elements, default, on u{W}", default=D(W))
+    # arrays of range lists with stride 0: every element is the same bits
+    for W in (8, 32, 24, 128):
+        add(W, [Field("a", T_uint(4), [(0, 2), (4, 2)], (2, 0, True), "rw")], "colliding-array-of-lists", f"array of lists with stride 0 (all elements alias), default, on u{W}", default=D(W))
+        add(W, [Field("a", T_uint(2), [(1, 1), (3, 1)], (3, 0, True), "w"), Field("t", T_bool(), [(W - 1, 1)], None, "rw")], "colliding-array-of-lists", f"write-only array of single-bit lists with stride 0 plus a clean bool, default, on u{W}", default=D(W))
+        add(W, [Field("a", ty_for_width(W, "u1"), [(0, W // 2), (W // 2, W - W // 2)], (2, 0, True), "rw")], "colliding-array-of-lists", f"stride-0 array of lists covering u{W} 'completely', no default")
     # three-item lists with a far collision
     add(16, [Field("a", T_uint(3), [(0, 1), (1, 1), (6, 1)], (3, 3, True), "rw")], "colliding-array-of-lists", "items {0,1,6} stride 3 K=3: element 0 and 2 share bit 6", default=D(16))
     add(32, [Field("a", T_uint(4), [(0, 2), (12, 2)], (4, 4, True), "rw")], "colliding-array-of-lists", "ranges {0..1,12..13} stride 4 K=4: element 0 and 3 collide", default=D(32))
